@@ -2,6 +2,7 @@ from vf import Query
 
 SRC = ["src/kernel/activity/MutexImpl.cpp", "src/kernel/activity/ActivityImpl.cpp"]
 OPS = {0: "lock", 1: "lock_async", 2: "try_lock", 3: "unlock"}
+THOROUGH_MAX = 150  # all quick shapes + a fixed strided sample of the other thorough shapes (lib/vf.py)
 META = {
     "bounds": "shapes: recursive in {0,1} x owner in {none, A0} x queued acquisitions 0..3 (quick: 0..1), each blocked in wait_for or only "
               "lock_async-ed x issuer in {owner, k-th non-blocked waiter, outsider} x op in {lock=lock_async+wait_for, lock_async, try_lock, unlock}; "
